@@ -22,25 +22,25 @@ CLAIMS = {
     ),
     "C13": dict(
         technique="static analysis: who-may-write scan + path-fact dominance of the header store, exhaustive check of the folded cookie escape table over 0-255, provenance of the Location header, source scan of list_headers",
-        text="Decides on the code's shape, for all strings and all mutation sequences: the only store into the header mapping's backing dict is in __setitem__ and every path to it has rejected CR, LF and NUL in both key and value (append/update/setdefault funnel through it; nothing outside the class touches the dict); for every code point 0-255 the cookie escaper emits either a safe single character, an escape pair or a 3-digit octal escape and never a raw ';', CR, LF, NUL, quote or backslash, and both name and value pass it; the redirect target passes iri_to_uri = quote(iri, safe=S) with S free of CR LF NUL SP; list_headers emits only the checked mapping and Cookie objects. The Location provenance rule covers every path of both RedirectResponse constructors. Every Location header written anywhere in the package passes iri_to_uri.",
+        text="Decides on the code's shape, for all strings and all mutation sequences: the only store into the header mapping's backing dict is in __setitem__ and every path to it has rejected CR, LF and NUL in both key and value (append/update/setdefault funnel through it; nothing outside the class touches the dict); for every code point 0-255 the cookie escaper emits either a safe single character, an escape pair or a 3-digit octal escape and never a raw ';', CR, LF, NUL, quote or backslash, and both name and value pass it; the redirect target passes iri_to_uri = quote(iri, safe=S) with S free of CR LF NUL SP; list_headers emits only the checked mapping and Cookie objects. The Location provenance rule covers every path of both RedirectResponse constructors. Every Location header written anywhere in the package passes iri_to_uri. Cookie.__bytes__ encodes with the strict error handler (a substituting handler writes text after the escaper ran).",
         note="Trusted: typing.MutableMapping mixins route through __setitem__/__delitem__; urllib.parse.quote contract. The constructor path MutableHeaders(headers) is unchecked by the code and outside the statement's quantifier (recorded as an observation).",
         ref="DESIGN.md section 3, C13",
     ),
     "C16": dict(
         technique="static analysis: writer/reader table agreement enumerated over 0-255 on folded constants + reader structure extracted from the AST; API-provenance rule for UTC datetimes; argument pass-through on all paths of set_cookie",
-        text="Decides the per-character clause exactly (for every code point 0-255: what the writer emits is ASCII, contains no separator the reader splits on, and is inverted by the reader's unquoting; raw-path and empty-value side conditions), the Expires provenance (the datetime formatted with a literal GMT is UTC-aware and equals time.time()+expires), Max-Age pass-through and delete_cookie constants. Does not decide multi-cookie header interplay beyond the separator argument. Also: Cookie.__init__ keeps every argument as given and __str__ formats self.expires (the link between set_cookie's UTC datetime and the GMT label); the unquoted-path guard may be a disjunction of regex predicates and charwise str predicates, each evaluated per code point. Headers.__init__ stores every header value as given.",
+        text="Decides the per-character clause exactly (for every code point 0-255: what the writer emits is ASCII, contains no separator the reader splits on, and is inverted by the reader's unquoting; raw-path and empty-value side conditions), the Expires provenance (the datetime formatted with a literal GMT is UTC-aware and equals time.time()+expires), Max-Age pass-through and delete_cookie constants. Does not decide multi-cookie header interplay beyond the separator argument. Also: Cookie.__init__ keeps every argument as given and __str__ formats self.expires (the link between set_cookie's UTC datetime and the GMT label); the unquoted-path guard may be a disjunction of regex predicates and charwise str predicates, each evaluated per code point. Headers.__init__ stores every header value as given. The request's header mapping is built from the gateway's header values unchanged (WSGI: the environ value; ASGI: its Latin-1 decoding); Cookie.__bytes__ is the strict ASCII/Latin-1 encoding of str(self).",
         note="Trusted: http.cookies._unquote contract (re-stated in the checker), str.strip/split semantics, strftime %a/%b under the C locale.",
         ref="DESIGN.md section 3, C16",
     ),
     "C05": dict(
         technique="static analysis: typestate (protocol automaton) in product with a path-sensitive AST dataflow of every response __call__, helpers and closures inlined; header-name provenance; constant scans; taint of file-name text",
-        text="For every concrete response class (9 ASGI, 9 WSGI, found from the class table) the emit sequence is checked against the gateway grammar on ALL paths of __call__ with handle_*, render_stream and the sendfile closures inlined: ASGI start, body*(more_body true), one final body, nothing after, every normal exit after the final body and every exceptional exit a legal prefix; WSGI start_response exactly once before the first body, 'NNN reason' status from the table with its unknown-code fallback, header list from list_headers or the range-exception constants, every yielded expression bytes-typed. Also decided: lower-case byte header names on every ASGI start (incl. the 416 error path), no hop-by-hop header constant on WSGI paths, file-name text percent-encoded before it enters a header (known finding F9). Not decided: user-supplied header values and iterables (trusted by annotation). The Location header of both RedirectResponse constructors is iri_to_uri(str(url)) on every path. No handler of the OSError family or broader around a call that was handed the emit channel may lead to another emission (second response start).",
+        text="For every concrete response class (9 ASGI, 9 WSGI, found from the class table) the emit sequence is checked against the gateway grammar on ALL paths of __call__ with handle_*, render_stream and the sendfile closures inlined: ASGI start, body*(more_body true), one final body, nothing after, every normal exit after the final body and every exceptional exit a legal prefix; WSGI start_response exactly once before the first body, 'NNN reason' status from the table with its unknown-code fallback, header list from list_headers or the range-exception constants, every yielded expression bytes-typed. Also decided: lower-case byte header names on every ASGI start (incl. the 416 error path), no hop-by-hop header constant on WSGI paths, file-name text percent-encoded before it enters a header (known finding F9). Not decided: user-supplied header values and iterables (trusted by annotation). The Location header of both RedirectResponse constructors is iri_to_uri(str(url)) on every path. No handler of the OSError family or broader around a call that was handed the emit channel may lead to another emission (second response start). Every WSGI adapter of the package hands the iterable returned by app(environ, start_response) on (returned, yielded from or passed on) on every path.",
         note="A send()/start_response call that raises is modelled as not having delivered its event. more_body must be a decidable constant on each path (otherwise UNDECIDED). Inlining bound 5.",
         ref="DESIGN.md section 3, C05",
     ),
     "C11": dict(
         technique="static extraction of the wrapper's guarded transition system from the AST (all paths, send/receive inlined) + exhaustive exploration of its finite product with the ASGI application-side grammar and the server script grammar",
-        text="The two state machines of the WebSocket wrapper are recovered from the source (every path of every public method with its guards over client_state / application_state / message types, its ordered raw-channel uses and state stores, and its exit) and the finite product with the ASGI WebSocket application grammar (accept|close first, send only between, nothing after close) and the server script grammar (connect, frames, disconnect) is explored exhaustively over all 11 operations in all reachable states: nothing the grammar rejects is ever forwarded, a rejected call forwards nothing, no raw receive after the disconnect was delivered, states only move forward and mirror what was actually sent/received, close is idempotent, each receive returns the event of its own single raw receive. Also: only send()/receive() touch the raw channels, websocket_session hands out only the wrapper, the denial response closes exactly once / maps exactly the two HTTP events. A function that builds the wrapper does not use the raw send/receive in that branch; because ws_send rewrites its argument in place, every message the HTTP response helpers hand to send() is a dict built for that call.",
+        text="The two state machines of the WebSocket wrapper are recovered from the source (every path of every public method with its guards over client_state / application_state / message types, its ordered raw-channel uses and state stores, and its exit) and the finite product with the ASGI WebSocket application grammar (accept|close first, send only between, nothing after close) and the server script grammar (connect, frames, disconnect) is explored exhaustively over all 11 operations in all reachable states: nothing the grammar rejects is ever forwarded, a rejected call forwards nothing, no raw receive after the disconnect was delivered, states only move forward and mirror what was actually sent/received, close is idempotent, each receive returns the event of its own single raw receive. Also: only send()/receive() touch the raw channels, websocket_session hands out only the wrapper, the denial response closes exactly once / maps exactly the two HTTP events. A function that builds the wrapper does not use the raw send/receive in that branch; because ws_send rewrites its argument in place, every message the HTTP response helpers hand to send() is a dict built for that call. The receive wrapper of the denial response returns a message of type http.disconnect after a websocket.disconnect (dict displays read left to right).",
         note="The model is extracted from /repo on every run, not hand-written. Guards are asserts (python -O removes them; outside the quantifier). Server scripts are well-formed (the quantifier's). traces_validated_against_impl is 0 by construction: nothing is executed.",
         ref="DESIGN.md section 3, C11",
     ),
@@ -58,19 +58,19 @@ CLAIMS = {
     ),
     "C07": dict(
         technique="static analysis: sanitiser dominance over every path expression reaching a file-system sink (path-sensitive AST dataflow with reaching-definition trees), who-may-call scan, idiom table for segment-aware confinement tests",
-        text="Decides the confinement clause structurally for all request paths: on every path of the four __call__s each expression reaching os.stat / FileResponse is ensure_absolute_path(<request path>) plus at most a separator-free constant suffix; no other function of the static-file modules touches the file system; the sanitiser normalises before testing, tests the value it returns, rejects with None and uses a segment-aware idiom (the over-rejecting relpath.startswith('..') - defect F5, repaired - and the under-rejecting startswith(directory) are violations); the regular-file flag is S_ISREG of the stat of the served path and that stat_result is the one given to FileResponse; the configured directory is absolute; Pages fallbacks (index.html, .html retry, directory redirect) are confined and guarded. Not decided: that every path maps to the right file (defect F6 '/dir/' is described, not detected). No function of the static-file / response modules mutates a module-level or class-level container (a body memo would serve another file's content). The sanitiser restores the trailing '/' for every path that ends in '/'; the WSGI apps join PATH_INFO re-decoded as UTF-8; the redirect's URL builder is fed the gateway's own root path + path.",
+        text="Decides the confinement clause structurally for all request paths: on every path of the four __call__s each expression reaching os.stat / FileResponse is ensure_absolute_path(<request path>) plus at most a separator-free constant suffix; no other function of the static-file modules touches the file system; the sanitiser normalises before testing, tests the value it returns, rejects with None and uses a segment-aware idiom (the over-rejecting relpath.startswith('..') - defect F5, repaired - and the under-rejecting startswith(directory) are violations); the regular-file flag is S_ISREG of the stat of the served path and that stat_result is the one given to FileResponse; the configured directory is absolute; Pages fallbacks (index.html, .html retry, directory redirect) are confined and guarded. Not decided: that every path maps to the right file (defect F6 '/dir/' is described, not detected). No function of the static-file / response modules mutates a module-level or class-level container (a body memo would serve another file's content). The sanitiser restores the trailing '/' for every path that ends in '/'; the WSGI apps join PATH_INFO re-decoded as UTF-8; the redirect's URL builder is fed the gateway's own root path + path. The configured directory is absolute independently of the later working directory (abspath/realpath or anchored at ModuleSpec.origin).",
         note="Trusted: os.path function semantics. Symlinks are outside the statement. A correct confinement test in an idiom outside the table yields UNDECIDED.",
         ref="DESIGN.md section 3, C07",
     ),
     "C14": dict(
         technique="static analysis: writer/reader validator agreement through the resolver, attribute-dependence of the digest, path facts of file_response for RFC 7232 precedence, per-member normalisation shape of the If-None-Match matcher",
-        text="Histories over a file clock are not decidable statically; the check decides structural necessary conditions whose violation produces a stale 304 or a missed revalidation for some history: the compared ETag is generate_etag of the very stat_result that is served and the emitted ETag/Last-Modified come from the same function and stat; the digest depends on both st_mtime and st_size; If-Modified-Since is compared with st_mtime/st_ctime with int() truncation on both sides and <=; on every 304 path decided by If-Modified-Since the If-None-Match header is known absent (defect F21, repaired); weak prefix and quotes are stripped per list member, '*' matches, empty never matches (defect F22, repaired); a 304 path builds Response(304) and never a FileResponse. Every definition of the validator variables handed to file_response is the header read or the default preceding it. file_response is the only producer of a 304.",
+        text="Histories over a file clock are not decidable statically; the check decides structural necessary conditions whose violation produces a stale 304 or a missed revalidation for some history: the compared ETag is generate_etag of the very stat_result that is served and the emitted ETag/Last-Modified come from the same function and stat; the digest depends on both st_mtime and st_size; If-Modified-Since is compared with st_mtime/st_ctime with int() truncation on both sides and <=; on every 304 path decided by If-Modified-Since the If-None-Match header is known absent (defect F21, repaired); weak prefix and quotes are stripped per list member, '*' matches, empty never matches (defect F22, repaired); a 304 path builds Response(304) and never a FileResponse. Every definition of the validator variables handed to file_response is the header read or the default preceding it. file_response is the only producer of a 304. The weak-prefix test is applied to the whitespace-stripped member of the ','-split.",
         note="Partial by construction: decides the mechanism, not the outcome of arbitrary modification/request histories. Trusted: os.stat field meanings, email.utils date parsing.",
         ref="DESIGN.md section 3, C14",
     ),
     "C19": dict(
         technique="static analysis: API rule on the line splitter (receiver typed by the ServerSentEvent TypedDict), regular-language equality of the folded line-break pattern with {CRLF, CR, LF}, folded shape of the block expression, constant checks of ping/headers, charset provenance",
-        text="Decides for all event texts the clause that made the property fail: the data lines are produced by a splitter whose language is exactly CR, LF, CRLF (str.splitlines on the str data - defect F2, repaired - or any pattern whose automaton differs is a violation with a witness). Also decided: each line is '<field>: <value>' encoded with the response charset, lines joined with LF and a terminating blank line, the ping is a comment block equal on both stacks, Content-Type text/event-stream carries the charset actually used for encoding, Cache-Control no-cache, user headers override. Not decided: conformance of arbitrary event/id text (the statement restricts them to single lines); delivery order is C06. Nothing yielded is dropped while the client is connected: the 'client went away' flag is set only from a received http.disconnect, and an item pulled from the user's iterator is always enqueued. The encoder does not modify the event dict it is given.",
+        text="Decides for all event texts the clause that made the property fail: the data lines are produced by a splitter whose language is exactly CR, LF, CRLF (str.splitlines on the str data - defect F2, repaired - or any pattern whose automaton differs is a violation with a witness). Also decided: each line is '<field>: <value>' encoded with the response charset, lines joined with LF and a terminating blank line, the ping is a comment block equal on both stacks, Content-Type text/event-stream carries the charset actually used for encoding, Cache-Control no-cache, user headers override. Not decided: conformance of arbitrary event/id text (the statement restricts them to single lines); delivery order is C06. Nothing yielded is dropped while the client is connected: the 'client went away' flag is set only from a received http.disconnect, and an item pulled from the user's iterator is always enqueued. The encoder does not modify the event dict it is given. A non-zero maxsplit of re.split is a violation. The hand-off order clauses shared with C06 (FIFO queue, one put per item, every dequeued event yielded exactly once before the next dequeue) are reported under this property too.",
         note="Trusted: re semantics for the pattern subset; the TypedDict annotation for the type of data.",
         ref="DESIGN.md section 3, C19",
     ),
@@ -82,25 +82,25 @@ CLAIMS = {
     ),
     "C01": dict(
         technique="static analysis: boundary-escape provenance, regular-language equality of the folded delimiter patterns (boundary as an opaque symbol) incl. first-set, hold-back provenance on all paths of next_event/last_newline, guarded-effect extraction of the helper loops, sibling equality",
-        text="The whole property (byte-exact round trip for all contents x all chunkings) quantifies over run-time bytes and is not decided. Decided necessary conditions, each of which breaks chunk-independence or exactness when violated: the boundary passes re.escape before every re.compile; the delimiter patterns denote exactly 'line break -- boundary (--)? blanks line break' and every match starts with CR or LF (automaton decisions); while more data is expected the emitted and the deleted prefix are the same hold-back bound, that bound is last_newline() (or max(last_newline(), len(buffer) - len(boundary) - K) with K >= 3, and only while no complete boundary is buffered), last_newline() is the minimum of the last LF and the last CR (each defaulting to len(buffer)), the final Data of a part is content up to match.start() with the delimiter consumed to match.end(); the helper loops handle every event class, accumulate/flush/stream/rewind under the right guards, equally in sync and async; both form accessors hand the Latin-1 boundary, charset default and their own stream to their own helper. Decoder input discipline: receive_data appends every chunk and completes on None alone, the header block is split into lines as bytes, a part is a File exactly when the filename parameter is not None; the WSGI chunk source ends on an empty read only. The second hold-back idiom (a trailing partial delimiter found by an end-anchored regex) is proved by automaton inclusion: every non-empty delimiter prefix is matched. request.content_type parses the whole header value; the parameter splitter's quote parity discounts escaped quotes.",
+        text="The whole property (byte-exact round trip for all contents x all chunkings) quantifies over run-time bytes and is not decided. Decided necessary conditions, each of which breaks chunk-independence or exactness when violated: the boundary passes re.escape before every re.compile; the delimiter patterns denote exactly 'line break -- boundary (--)? blanks line break' and every match starts with CR or LF (automaton decisions); while more data is expected the emitted and the deleted prefix are the same hold-back bound, that bound is last_newline() (or max(last_newline(), len(buffer) - len(boundary) - K) with K >= 3, and only while no complete boundary is buffered), last_newline() is the minimum of the last LF and the last CR (each defaulting to len(buffer)), the final Data of a part is content up to match.start() with the delimiter consumed to match.end(); the helper loops handle every event class, accumulate/flush/stream/rewind under the right guards, equally in sync and async; both form accessors hand the Latin-1 boundary, charset default and their own stream to their own helper. Decoder input discipline: receive_data appends every chunk and completes on None alone, the header block is split into lines as bytes, a part is a File exactly when the filename parameter is not None; the WSGI chunk source ends on an empty read only. The second hold-back idiom (a trailing partial delimiter found by an end-anchored regex) is proved by automaton inclusion: every non-empty delimiter prefix is matched. request.content_type parses the whole header value; the parameter splitter's quote parity discounts escaped quotes. Every reading loop of the WSGI stream() is judged (a counted loop of reads is a violation).",
         note="Partial: structural preconditions of exactness, not the equality itself. parse_header quoting round trip is not decided.",
         ref="DESIGN.md section 3, C01",
     ),
     "C15": dict(
         technique="static analysis: guarded-effect extraction of the helper loops (increment / comparison / raise with lexical guards and same-block ordering), strictness of the comparisons, folded status constant, bounded hold-back idiom rule on the decoder",
-        text="Decides limit exactness structurally: field bytes are counted by len(event.data) on exactly the in-memory field paths and compared with strict > (guarded by 'is not None') directly after the increment in the same Data iteration; parts are counted by exactly 1 on exactly the last-Data paths of fields and files and compared with strict >; both raise RequestEntityTooLarge whose constructor folds to 413; sync and async helpers are equal after normalisation; upload data is written per event; the decoder's hold-back is clamped independently of the data (defect F23 - unbounded buffering of a part that starts with CR - was found by this rule and repaired). Not decided: the numeric buffering bound for all chunkings, spooled-file roll-over. A part counts as non-file field data exactly when its Content-Disposition has no filename parameter (`is None` test). Every hold-back path is bounded: the clamp idiom, or the pending-delimiter pattern whose words lacking the delimiter have bounded length (longest word of the automaton).",
+        text="Decides limit exactness structurally: field bytes are counted by len(event.data) on exactly the in-memory field paths and compared with strict > (guarded by 'is not None') directly after the increment in the same Data iteration; parts are counted by exactly 1 on exactly the last-Data paths of fields and files and compared with strict >; both raise RequestEntityTooLarge whose constructor folds to 413; sync and async helpers are equal after normalisation; upload data is written per event; the decoder's hold-back is clamped independently of the data (defect F23 - unbounded buffering of a part that starts with CR - was found by this rule and repaired). Not decided: the numeric buffering bound for all chunkings, spooled-file roll-over. A part counts as non-file field data exactly when its Content-Disposition has no filename parameter (`is None` test). Every hold-back path is bounded: the clamp idiom, or the pending-delimiter pattern whose words lacking the delimiter have bounded length (longest word of the automaton). parse_header records every name=value parameter whatever its value (filename=\"\" still marks a file part).",
         note="Partial by construction. The clamp's soundness condition (K >= 3, only while no boundary is buffered) is checked by C01/R1.3.",
         ref="DESIGN.md section 3, C15",
     ),
     "C02": dict(
         technique="static analysis: symbolic length algebra (linear forms over |boundary|, |content_type|, digit-count atoms and end-start) comparing the Content-Length formula with the emitted template and both emitters; header-before-start dominance and HEAD independence on all handler paths; If-Range gate facts; writer/reader expression agreement; open/close pairing on all exits",
-        text="Decides for all boundary/content-type/number lengths whether the closed-form multipart Content-Length equals what is emitted: the formula and the emissions (f-string of the header generator, per-range and closing pieces of both handle_several_ranges) are reduced to linear forms and compared coefficient by coefficient, so a changed template, line ending, extra header or one-sided emitter edit is reported whatever the digit counts. Also decided on all paths: framing headers are written before the start event and independently of HEAD, the HEAD path opens nothing and sends one empty body, single-range headers and reader arguments use the same (start, end), Range is honoured only behind the If-Range gate and judge_if_range compares against the emitted validators, the 400/416 path forwards status/headers ('*/size') and opens nothing, ASGI descriptors are closed on every normal and exceptional exit. Not decided: that the chunk loops read exactly end-start bytes for every chunk_size alignment. Two structural clauses of the otherwise undecided arithmetic: the ASGI fallback sender clamps every bounded read by a count-derived remaining value with no fall-back operand and stops from the count bookkeeping; an interval replaced in parse_range's result is the hull of both. FileResponse stats the path it opens with os.stat; every response owns its header store.",
+        text="Decides for all boundary/content-type/number lengths whether the closed-form multipart Content-Length equals what is emitted: the formula and the emissions (f-string of the header generator, per-range and closing pieces of both handle_several_ranges) are reduced to linear forms and compared coefficient by coefficient, so a changed template, line ending, extra header or one-sided emitter edit is reported whatever the digit counts. Also decided on all paths: framing headers are written before the start event and independently of HEAD, the HEAD path opens nothing and sends one empty body, single-range headers and reader arguments use the same (start, end), Range is honoured only behind the If-Range gate and judge_if_range compares against the emitted validators, the 400/416 path forwards status/headers ('*/size') and opens nothing, ASGI descriptors are closed on every normal and exceptional exit. Not decided: that the chunk loops read exactly end-start bytes for every chunk_size alignment. Two structural clauses of the otherwise undecided arithmetic: the ASGI fallback sender clamps every bounded read by a count-derived remaining value with no fall-back operand and stops from the count bookkeeping; an interval replaced in parse_range's result is the hull of both. FileResponse stats the path it opens with os.stat; every response owns its header store. RangeNotSatisfiable carries status 416 and Content-Range */<size> on every path of its constructor (size 0 included); the values If-Range is compared with are the very ETag / Last-Modified expressions that are emitted.",
         note="Partial. Assumes the part header text is one byte per character. Sibling agreement of the handlers is C04, the emit grammar is C05.",
         ref="DESIGN.md section 3, C02",
     ),
     "C10": dict(
         technique="static analysis: consume-once typestate on all paths of the two stream() generators (path facts + store/read ordering), who-may-read scan, descriptor-shape analysis of cached_property.__get__",
-        text="Decides the structural core of the property: every path that reads the server channel has tested _stream_consumed false and set it before the first read, the consumed case raises the documented error without reading, the cached-body branch replays without reading, no other method reads the channel (is_disconnected sanctioned and recorded); body/json/form are cached_property, which is a non-data descriptor storing under the function's name and wrapping an awaitable in one shared future before storing (the whole compute-once argument under concurrency); the ASGI receive loop ends only after more_body is false, a disconnect raises ClientDisconnect, chunks are yielded; WSGI returns only on an empty read; body is b''.join over exactly self.stream(). Not decided: interleavings beyond the shared-future argument, a misbehaving receive(). Cached accessor results are write-once (no package code deletes or overwrites an instance __dict__ entry); the WSGI read loop is judged by its exits (only an empty read ends it); the stream helpers behind form() run their chunk loop to exhaustion.",
+        text="Decides the structural core of the property: every path that reads the server channel has tested _stream_consumed false and set it before the first read, the consumed case raises the documented error without reading, the cached-body branch replays without reading, no other method reads the channel (is_disconnected sanctioned and recorded); body/json/form are cached_property, which is a non-data descriptor storing under the function's name and wrapping an awaitable in one shared future before storing (the whole compute-once argument under concurrency); the ASGI receive loop ends only after more_body is false, a disconnect raises ClientDisconnect, chunks are yielded; WSGI returns only on an empty read; body is b''.join over exactly self.stream(). Not decided: interleavings beyond the shared-future argument, a misbehaving receive(). Cached accessor results are write-once (no package code deletes or overwrites an instance __dict__ entry); the WSGI read loop is judged by its exits (only an empty read ends it); the stream helpers behind form() run their chunk loop to exhaustion. A counted loop of reads (for .. in range(..)) is a violation; iter(<reader>, b'') is the read path.",
         note="Trusted: asyncio.ensure_future semantics; descriptor protocol.",
         ref="DESIGN.md section 3, C10",
     ),
@@ -118,7 +118,7 @@ CLAIMS = {
     ),
     "C06": dict(
         technique="static analysis: resource/handle pairing on all exits (path-sensitive dataflow with exceptions and generator-close injected at every call/await/yield), close-once rule for the user's iterable, wait-for (lock-order style) rule on the queue hand-off, FIFO/yield-every-item shape",
-        text="Interleavings and deadlines are schedule-quantified and not decided. Decided structural necessary conditions: every background task/future is cancelled or awaited on every exit of its creator, in a finally; the user's iterable is closed exactly once on every exit of the relay, the ASGI stream generator and the ASGI streaming __call__ (WSGI streams delegate with yield from); a join-like wait of the closing consumer on a thread relay is legal only if the relay's puts on the bounded queue cannot block forever (non-blocking/timed put, unbounded queue, or a consumer that drains until the relay is done) - this rule found the WSGI deadlock F10, since repaired - and on asyncio the task outcome is read only after cancel() returned False; the stop flag is raised in the finally and tested by the relay loop; the hand-off is a FIFO queue with one producer loop and a consumer that yields every dequeued non-sentinel item once. No handler around an ASGI send() (direct or via the emit helpers) can swallow OSError; the closed flag is set only from a received http.disconnect; a pulled item is always enqueued. A timed put raises Full in the path model; the wait for the relay is skipped when cancel() removed a relay that never started.",
+        text="Interleavings and deadlines are schedule-quantified and not decided. Decided structural necessary conditions: every background task/future is cancelled or awaited on every exit of its creator, in a finally; the user's iterable is closed exactly once on every exit of the relay, the ASGI stream generator and the ASGI streaming __call__ (WSGI streams delegate with yield from); a join-like wait of the closing consumer on a thread relay is legal only if the relay's puts on the bounded queue cannot block forever (non-blocking/timed put, unbounded queue, or a consumer that drains until the relay is done) - this rule found the WSGI deadlock F10, since repaired - and on asyncio the task outcome is read only after cancel() returned False; the stop flag is raised in the finally and tested by the relay loop; the hand-off is a FIFO queue with one producer loop and a consumer that yields every dequeued non-sentinel item once. No handler around an ASGI send() (direct or via the emit helpers) can swallow OSError; the closed flag is set only from a received http.disconnect; a pulled item is always enqueued. A timed put raises Full in the path model; the wait for the relay is skipped when cancel() removed a relay that never started. A streaming response run as websocket denial response is told about the peer's disconnect (receive wrapper rule shared with C11).",
         note="Partial: a sufficient-condition table for absence of the deadlock, not a proof of termination under all schedules; unrecognised synchronisation idioms are UNDECIDED. Trusted: Future.cancel semantics, PEP 380 close forwarding.",
         ref="DESIGN.md section 3, C06",
     ),
